@@ -29,6 +29,7 @@ import ctypes
 import json
 import os
 import random
+import re
 import shutil
 
 import _ctypes
@@ -102,8 +103,9 @@ def _spec_for(rng, n):
 	return {"n": n, "s": rng.getrandbits(32), "b": rng.choice([0, 0, 1, 1, 2, 3, 4])}
 
 
-def wire_cost(payload):
-	return 4 + len(payload) + sum(payload.count(bytes([x])) for x in NEED_ESC) + 1
+def wire_cost(payload, dlci=1):
+	"""Octets on the wire for one frame: two flags, address, control, payload, escapes."""
+	return 4 + len(payload) + sum(payload.count(bytes([x])) for x in NEED_ESC) + (dlci in NEED_ESC)
 
 
 class Violation(Exception):
@@ -204,14 +206,15 @@ class Node:
 		"""Clause (iv): panic flag, lock balance, msgb sanity, guard zones."""
 		lib = self.lib
 		if lib.hx_panicked():
-			raise Violation("C06.panic", node=self.kind, msg=lib.hx_panic_msg().decode("latin1")[:160])
+			# no addresses, no process ids: the record must be identical on replay
+			msg = re.sub(r"0x[0-9a-fA-F]+", "0x?", lib.hx_panic_msg().decode("latin1"))
+			msg = re.sub(r"==\d+==|={8,}|\s+", " ", msg)
+			raise Violation("C06.panic", node=self.kind, msg=msg.strip()[:160])
 		if lib.hx_lock_errors() or lib.hx_lock_depth():
 			raise Violation("C06.lock-imbalance", node=self.kind, errors=lib.hx_lock_errors(),
 				depth=lib.hx_lock_depth())
 		if lib.hx_msg_errors():
 			raise Violation("C06.msgb-inconsistent", node=self.kind, count=lib.hx_msg_errors())
-		if lib.hx_pull_bad_return():
-			raise Violation("C06.pull-return-value", node=self.kind, count=lib.hx_pull_bad_return())
 		if lib.hx_log_overflowed():
 			raise HarnessError("receive log overflow")
 		if deep and lib.hx_mem_check():
@@ -267,7 +270,7 @@ class Direction:
 			n += len(self.cur.wire) - self.off
 		for q in self.queues.values():
 			for f in q:
-				n += wire_cost(f.payload)
+				n += wire_cost(f.payload, f.dlci)
 		return n
 
 
@@ -280,6 +283,17 @@ def classify_tx_mismatch(d, actual, expected_frame):
 	base = {"dir": d.name, "frame": f.idx, "dlci": f.dlci, "len": len(f.payload)}
 	if actual[0] != FLAG:
 		return Violation("C06.wire-grammar", what="frame does not open with a flag", got=actual[0], **base)
+	# clause (ii): do the octets fit another message that is waiting instead?
+	ref = hdlc_encode(f.dlci, f.payload)
+	j = next((x for x in range(min(len(actual), len(ref))) if actual[x] != ref[x]), min(len(actual), len(ref)))
+	for k in sorted(d.queues):
+		for g in d.queues[k]:
+			other = hdlc_encode(g.dlci, g.payload)
+			n = min(len(actual), len(other))
+			if n > j and actual[:n] == other[:n]:
+				return Violation("C06.priority", sent_frame=g.idx, sent_dlci=g.dlci, queued_dlcis=sorted(
+					x for x, q in d.queues.items() if q)[:8], what="frame of another DLCI started"
+					if g.dlci != f.dlci else "not the head of the DLCI's queue (FIFO)", **base)
 	content = bytearray()
 	esc = False
 
@@ -372,7 +386,8 @@ class Run:
 			self.log.append(["reg", r, sorted(regset)])
 
 	def close(self):
-		for n in self.nodes.values():
+		# reverse order of creation: each object restores the signal handlers it found
+		for n in reversed(list(self.nodes.values())):
 			n.close()
 
 	def probe(self, name, n=1):
@@ -402,7 +417,7 @@ class Run:
 			w = f.wire
 			m = min(n - i, len(w) - d.off)
 			if octets[i:i + m] != w[d.off:d.off + m]:
-				raise classify_tx_mismatch(d, w[:d.off] + octets[i:i + m], f)
+				raise classify_tx_mismatch(d, w[:d.off] + octets[i:], f)
 			i += m
 			d.off += m
 			if d.off == len(w):
@@ -521,7 +536,7 @@ class Run:
 			k = len(d.cur.wire) - d.off
 		elif d.queued:
 			f = d.queues[min(x for x, q in d.queues.items() if q)][0]
-			k = wire_cost(f.payload)
+			k = wire_cost(f.payload, f.dlci)
 		else:
 			k = 1
 		self.op_pump(d, k)
@@ -539,7 +554,7 @@ class Run:
 		if overlong and self.overlong_count >= MAX_OVERLONG:
 			return
 		if len(payload) > 60000 or self.wire_total + sum(x.remaining_wire() for x in self.dirs.values()) \
-				+ wire_cost(payload) > WIRE_HARD_LIMIT:
+				+ wire_cost(payload, dlci) > WIRE_HARD_LIMIT:
 			return
 		if overlong:
 			self.overlong_count += 1
@@ -604,7 +619,7 @@ class Run:
 			return
 		if not 0 <= dlci < 256 or (dlci in ADDR_ESC_DLCIS and "addr-octet-escape" in self.avoid):
 			return
-		if self.wire_total + wire_cost(payload) > WIRE_HARD_LIMIT:
+		if self.wire_total + wire_cost(payload, dlci) > WIRE_HARD_LIMIT:
 			return
 		if d.cur is not None:
 			self.op_pump(d, len(d.cur.wire) - d.off)
@@ -715,6 +730,14 @@ class SercommEngine:
 		rng = rng_for(seed, "plan")
 		thorough = tier == "thorough"
 		noavoid = set(x for x in os.environ.get("VERIF_SERCOMM_NOAVOID", "").split(",") if x)
+		# known findings (known_findings.json): most runs steer around their triggers so that the
+		# rest of the space is still explored; a seeded ~6 % each keep hitting them so that the
+		# KNOWN-FINDING line is earned on every check run, never assumed (DESIGN.md 3.3)
+		r_avoid = rng.random()
+		if r_avoid < 0.06:
+			noavoid.add("addr-octet-escape")
+		elif r_avoid < 0.12:
+			noavoid.add("noise-after-overlong")
 		avoid = [a for a in AVOID_ALL if a not in noavoid]
 		max_frames = rng.choice([5, 20, 40, 60] if thorough else [3, 8, 20, 40])
 		dirs = rng.choice([["HT"], ["TH"], ["HT", "TH"], ["HT", "TH"]])
